@@ -307,8 +307,106 @@ def empty_glob_worlds():
     return out
 
 
+def nested_glob_worlds():
+    """An observer with a glob nested in a glob (cells/*/organelles/*):
+    children added / deleted at the INNER level by another process or step
+    appear in / vanish from its view."""
+    out = []
+    leaf = shapes.leaf
+    for tick in (0, 1):
+        for issuer in ('P', 'S'):
+            for cell in ('c1', 'c2'):
+                n = tick if issuer == 'P' else tick + 1
+                spec = {
+                    'processes': {
+                        'obs': {'cls': 'P', 'pid': 'obs', 'ts': 1,
+                                'log_snapshot': True,
+                                'schema': {'cells': {'*': {'organelles': {
+                                    '*': {'m': leaf(0)}}}}},
+                                'update': {}}},
+                    'steps': {}, 'flow': {},
+                    'topology': {
+                        'obs': {'cells': ('cells',)},
+                        'op': {'org': ('cells', cell, 'organelles')}},
+                    'state': {'cells': {
+                        'c1': {'organelles': {'o1': {'m': 1},
+                                              'o2': {'m': 2}}},
+                        'c2': {'organelles': {'o1': {'m': 3}}}}},
+                    'script': [('update', 4)]}
+                op = {'cls': issuer, 'pid': 'op', 'ts': 1,
+                      'log_states': False,
+                      'schema': {'org': {'*': {'m': leaf(0)}}},
+                      'update': {'$n': {
+                          n: {'org': {'_add': [{'key': 'o3',
+                                                'state': {'m': 9}}]}},
+                          n + 1: {'org': {'_delete': ['o1']}}},
+                          '$else': {}}}
+                if issuer == 'P':
+                    spec['processes']['op'] = op
+                else:
+                    spec['steps']['op'] = op
+                    spec['flow']['op'] = []
+                out.append((f'nested-glob:{cell}:{issuer}:tick={tick}',
+                            spec))
+    return out
+
+
+def store_entry_cases(acc):
+    """Engine(store=..., initial_state=...): children that the initial
+    state adds to a glob-observed store are in the observer's view from its
+    first invocation."""
+    from vivarium.core.store import generate_state
+    leaf = shapes.leaf
+    for extra in ({'k_new': {'v': 5}}, {'k_new': {'v': 5}, 'k2': {}}, {}):
+        case = {'part': 'S', 'label': 'store-entry',
+                'extra': sorted(extra)}
+        acc.case(key=('store-entry', tuple(sorted(extra))), outcome='S')
+        V = lambda rule, fp, msg: acc.violate(  # noqa
+            fw.violation(rule, fp, msg, case))
+        obs = probes.Probe({'pid': 'obs', 'ts': 1, 'log_snapshot': True,
+                            'schema': {'pool': {'*': {'v': leaf(0)}}},
+                            'update': {}})
+        member = probes.Probe({'pid': 'member', 'ts': 1,
+                               'log_states': False,
+                               'schema': {'me': {'v': leaf(1)}},
+                               'update': {'me': {'v': 1}}})
+        try:
+            store = generate_state(
+                {'obs': obs, 'member': member},
+                {'obs': {'pool': ('pool',)},
+                 'member': {'me': ('pool', 'a0')}}, {})
+            probes.TRACE = trace = []
+            eng = probes.MonitoredEngine(
+                store=store, initial_state={'pool': copy.deepcopy(extra)},
+                emitter={'type': 'vmc_probe'}, display_info=False)
+            eng.update(2)
+        except Exception as e:  # noqa
+            probes.TRACE = None
+            V('C07.crash', f'store-entry:{type(e).__name__}',
+              f'{case}: unexpected {e!r}')
+            continue
+        probes.TRACE = None
+        snap = None
+        for ev in trace:
+            if ev[0] == 'snap' and ev[2] == 'obs':
+                snap = ev[5]
+            elif ev[0] in ('invoke',) and ev[2] == 'obs':
+                want = sorted(k for k, v in snap['pool'].items()
+                              if v != '<process>')
+                got = sorted(ev[6].get('pool', {}))
+                if got != want or set(want) != {'a0'} | set(extra):
+                    V('C07.view', 'store-entry-misses-initial-children',
+                      f'Engine(store=..., initial_state adds '
+                      f'{sorted(extra)}): next_update of obs at t={ev[4]} '
+                      f'sees {got}, the store holds {want}')
+                    break
+
+
 def run_special(job, acc):
     _, label, spec = job
+    if label == 'store-entry':
+        store_entry_cases(acc)
+        return
     case = {'part': 'S', 'label': label}
     V = lambda rule, fp, msg: acc.violate(  # noqa
         fw.violation(rule, fp, msg, case))
@@ -328,6 +426,27 @@ def run_special(job, acc):
                     V('C07.view', 'starstar-port',
                       f'"**" port: states {ev[6]}, hierarchy gives {want}')
                     return
+        return
+    if label.startswith('nested-glob'):
+        snap, views = None, set()
+        for ev in ex.trace:
+            if ev[0] == 'snap' and ev[2] == 'obs':
+                snap = ev[5]
+            if ev[0] == 'invoke' and ev[2] == 'obs':
+                want = {c: sorted(node.get('organelles', {}))
+                        for c, node in snap['cells'].items()}
+                got = {c: sorted(node.get('organelles', {}))
+                       for c, node in ev[6].get('cells', {}).items()}
+                views.add(fw.jdump(want))
+                if got != want:
+                    V('C07.view', 'nested-glob-misses-or-keeps-children',
+                      f'{label}: next_update of obs at t={ev[4]}: the '
+                      f'nested glob lists {got}, the hierarchy holds '
+                      f'{want}')
+                    return
+        if len(views) != 3:
+            V('C07.view', 'nested-glob-world-vacuous',
+              f'{label}: {len(views)} distinct structures observed')
         return
     if label.startswith('empty-glob'):
         snap, n_changes, last = None, 0, None
@@ -540,8 +659,10 @@ def jobs(ctx):
         out.append(('X', shape, 'output'))
     for shape in shapes.multi_port_shapes(2, reduced=True):
         out.append(('X', shape, 'plain'))
-    for label, spec in special_worlds() + empty_glob_worlds():
+    for label, spec in special_worlds() + empty_glob_worlds() + \
+            nested_glob_worlds():
         out.append(('S', label, spec))
+    out.append(('S', 'store-entry', None))
     depth = BOUNDS[ctx.tier]['depth']
     for init_i, init in enumerate(INITS):
         for issuer in ('step', 'process'):
@@ -580,10 +701,17 @@ def replay(case):
     elif case['part'] == 'X':
         run_x(('X', case['shape'], case['variant']), acc)
     elif case['part'] == 'S':
-        for label, spec in special_worlds() + empty_glob_worlds():
+        if case.get('label') == 'store-entry':
+            store_entry_cases(acc)
+        for label, spec in special_worlds() + empty_glob_worlds() + \
+                nested_glob_worlds():
             if label == case['label']:
                 run_special(('S', label, spec), acc)
     else:
         run_b(('B', case['init'], tup(case['history']), case['issuer'],
                case['obs_ts'], case.get('kind', 'vars')), acc)
     return [v for exs in acc.viol_examples.values() for v in exs]
+
+
+RULE += (
+    ' Also: an observer with a glob nested in a glob while children are added / deleted at the inner level; Engine(store=..., initial_state=...) whose initial state adds children to a glob-observed store.')
